@@ -122,3 +122,77 @@ def v1(proj, rep):
                         rep.ok('V1', f'{cq}[d]', f'sqrt(rho){i_rho} conj{i_conj} X{i_x} X*{i_xc} -> {out}', m, c)
     rep.count('V1.obligations', n)
     return n
+
+
+# ------------------------------------------------------------------------------------------------ V2
+RULE_V2 = ('V2: set_density_matrix of a convex-roof model re-computes EVERY attribute that is derived from the new state on EVERY call: no `return` '
+           'precedes such an assignment, and an assignment under `if` has a sibling assignment to the same attribute in the other arm. Otherwise a '
+           're-used model evaluates a decomposition of the previous state (contraction expressions have sqrt(rho) baked in as constants) and its loss '
+           'can fall below the closed-form value of the current state.')
+
+
+def v2(proj, rep, modules):
+    rep.rule('V2', RULE_V2)
+    n = 0
+    for mq in modules:
+        m = proj.mod(mq)
+        rep.touch(m)
+        for ci in [c for c in proj.classes.values() if c.module is m]:
+            fi = ci.methods.get('set_density_matrix')
+            if fi is None:
+                continue
+            fn = fi.node
+            params = [p for p in fi.all_params if p != 'self']
+            taint = set(params)
+            tattr = set()
+            changed = True
+            while changed:
+                changed = False
+                for st in ast.walk(fn):
+                    if isinstance(st, ast.Assign):
+                        names = {x.id for x in ast.walk(st.value) if isinstance(x, ast.Name)}
+                        attrs = {x.attr for x in ast.walk(st.value) if isinstance(x, ast.Attribute) and isinstance(x.value, ast.Name) and x.value.id == 'self'}
+                        if names & taint or attrs & tattr:
+                            for t in st.targets:
+                                for e in (t.elts if isinstance(t, ast.Tuple) else [t]):
+                                    if isinstance(e, ast.Name) and e.id not in taint:
+                                        taint.add(e.id)
+                                        changed = True
+                                    if isinstance(e, ast.Attribute) and isinstance(e.value, ast.Name) and e.value.id == 'self' and e.attr not in tattr:
+                                        tattr.add(e.attr)
+                                        changed = True
+            # statement-level walk
+            stores = {}
+            for st in ast.walk(fn):
+                if isinstance(st, ast.Assign):
+                    for t in st.targets:
+                        if isinstance(t, ast.Attribute) and isinstance(t.value, ast.Name) and t.value.id == 'self' and t.attr in tattr:
+                            stores.setdefault(t.attr, []).append(st)
+            rets = [r for r in ast.walk(fn) if isinstance(r, ast.Return)]
+            for a in sorted(tattr):
+                n += 1
+                construct = f'{ci.qual}.set_density_matrix[{a}]'
+                sts = stores[a]
+                last = max(s.lineno for s in sts)
+                early = [r for r in rets if r.lineno < last]
+                if early:
+                    rep.violation('V2', construct, f'`return` at line {early[0].lineno} precedes the assignment of `self.{a}`, which is derived from the new state: on that '
+                                  f'path a re-used model keeps `self.{a}` of the PREVIOUS density matrix', m, early[0])
+                    continue
+                # conditional store without sibling
+                bad = None
+                for s in sts:
+                    par = s._parent
+                    if isinstance(par, ast.If):
+                        other = par.orelse if s in par.body else par.body
+                        if not any(isinstance(o, ast.Assign) and any(isinstance(t, ast.Attribute) and t.attr == a for t in o.targets) for o in other):
+                            # is there an unconditional store as well?
+                            if not any(s2._parent is fn for s2 in sts):
+                                bad = s
+                if bad is not None:
+                    rep.violation('V2', construct, f'`self.{a}` is only updated under `if {ast.unparse(bad._parent.test)[:50]}`: on the other path the value of the '
+                                  f'previous state survives', m, bad)
+                else:
+                    rep.ok('V2', construct, f'`self.{a}` is re-computed on every call', m, sts[0])
+    rep.count('V2.state_attributes', n)
+    return n
